@@ -34,13 +34,17 @@ theorem good_push1 (s t : St) (e : Entry) (hj : t.journal = e :: s.journal)
 theorem ensure_good (s : St) (a : Nat) (hp : ∀ a, (s.acct a).present = false → s.acct a = Acct.absent) :
     Good s (ensure s a) := by
   unfold ensure
-  by_cases h : (s.acct a).present = true
-  · simp [h]; exact good_refl s
-  · simp only [h]
-    apply good_push1 _ _ (.createObject a) (by simp [St.push, St.setAcct])
-    simp only [undo, St.setAcct, St.push]
-    apply st_ext <;> simp
-    rw [upd_upd, ← hp a (by simpa using h), upd_self]
+  by_cases hl : (s.acct a).live = true
+  · simp [hl]; exact good_refl s
+  · by_cases h : (s.acct a).present = true
+    · simp only [hl, h, if_true]
+      apply good_push1 _ _ (.resetObject a (s.acct a)) (by simp [St.push, St.setAcct])
+      apply st_ext <;> simp [undo, St.setAcct, St.push, upd_upd, upd_self]
+    · simp only [hl, h]
+      apply good_push1 _ _ (.createObject a) (by simp [St.push, St.setAcct])
+      simp only [undo, St.setAcct, St.push]
+      apply st_ext <;> simp
+      rw [upd_upd, ← hp a (by simpa using h), upd_self]
 
 /-- Well-formedness of a state: an account without a state object reads as the absent account
 (what `getStateObject` returns for an address that is neither loaded nor in the trie). -/
@@ -57,10 +61,15 @@ theorem wf_push (s : St) (e : Entry) (h : WF s) : WF (s.push e) := h
 
 theorem wf_ensure (s : St) (a : Nat) (h : WF s) : WF (ensure s a) ∧ ((ensure s a).acct a).present = true := by
   unfold ensure
-  by_cases hp : (s.acct a).present = true
-  · simp [hp]; exact h
-  · simp only [hp]
-    exact ⟨wf_setAcct _ _ _ (wf_push _ _ h) rfl, by simp [St.setAcct, St.push]⟩
+  by_cases hl : (s.acct a).live = true
+  · simp only [hl, if_true]
+    refine ⟨h, ?_⟩
+    simp [Acct.live] at hl; exact hl.1
+  · by_cases hp : (s.acct a).present = true
+    · simp only [hl, hp, if_true]
+      exact ⟨wf_setAcct _ _ _ (wf_push _ _ h) rfl, by simp [St.setAcct, St.push]⟩
+    · simp only [hl, hp]
+      exact ⟨wf_setAcct _ _ _ (wf_push _ _ h) rfl, by simp [St.setAcct, St.push]⟩
 
 /-- after `ensure`, pushing one entry that records the previous field and writing the field -/
 theorem good_field (s : St) (a : Nat) (h : WF s) (e : Entry) (v : Acct)
@@ -83,7 +92,7 @@ theorem mut_good (vr : Variant) (s : St) (h : WF s) (m : Mut)
     simp only [applyMut, createAccount]
     by_cases hp : (s.acct a).present = true
     · simp only [hp, if_true]
-      refine ⟨?_, wf_setAcct _ _ _ (wf_push _ _ h) rfl⟩
+      refine ⟨?_, wf_setAcct _ _ _ (wf_push _ _ h) (by split <;> rfl)⟩
       apply good_push1 _ _ (.resetObject a (s.acct a)) (by simp [St.push, St.setAcct])
       apply st_ext <;> simp [undo, St.setAcct, St.push, upd_upd, upd_self]
     · simp only [hp]
@@ -129,11 +138,12 @@ theorem mut_good (vr : Variant) (s : St) (h : WF s) (m : Mut)
       · exact h1
       · simp [Mut.isSuicide] at h1
     simp only [applyMut, suicide]
-    by_cases hp : (s.acct a).present = true
-    · simp only [hp, Bool.not_true, Bool.false_eq_true, if_false, hv, if_true]
-      refine ⟨?_, wf_setAcct _ _ _ (wf_push _ _ h) rfl⟩
+    by_cases hp : (s.acct a).live = true
+    · have hpres : (s.acct a).present = true := by simp [Acct.live] at hp; exact hp.1
+      simp only [hp, Bool.not_true, Bool.false_eq_true, if_false, hv, if_true]
+      refine ⟨?_, wf_setAcct _ _ _ (wf_push _ _ h) hpres⟩
       apply good_push1 _ _ (.suicide a (s.acct a).suicided (s.acct a).bal (some (s.acct a).size)) (by simp [St.push, St.setAcct])
-      apply st_ext <;> simp [undo, St.setAcct, St.push, upd_upd]
+      apply st_ext <;> simp [undo, St.setAcct, St.push, upd_upd, hpres]
       funext x
       simp only [upd]
       split
@@ -142,7 +152,7 @@ theorem mut_good (vr : Variant) (s : St) (h : WF s) (m : Mut)
         cases hq : s.acct x
         simp_all
       · rfl
-    · have hp' : (s.acct a).present = false := by simpa using hp
+    · have hp' : (s.acct a).live = false := by simpa using hp
       simp only [hp', Bool.not_false, if_true]; exact ⟨good_refl s, h⟩
   | addRefund g =>
     simp only [applyMut, addRefund]
@@ -266,7 +276,7 @@ theorem C12_counterexample_suicide_size :
     let s0 : St := { acct := upd (fun _ => {}) 1 { present := true, bal := 5, size := 2 } }
     ((run { suicideRestoresSize := false } s0 (.frame [.mut (.suicide 1)] true)).acct 1).size = 0
     ∧ (s0.acct 1).size = 2 := by
-  simp [run, runList, applyMut, suicide, St.push, St.setAcct, upd]
+  simp [run, runList, applyMut, suicide, St.push, St.setAcct, upd, Acct.live]
   rw [revertTo_cons (e := .suicide 1 false 5 none) (rest := []) (hj := by simp) (h := by simp)]
   rw [revertTo_stop _ _ (by simp [undo_journal])]
   simp [undo, St.setAcct, upd]
@@ -279,6 +289,63 @@ theorem C12_reverted_frame_leaves_no_trace_partial (vr : Variant) (s : St) (h : 
     (hn : noSuicideList body = true) : run vr s (.frame body true) = s := by
   have hb := (runList_good vr body s h (Or.inr hn)).1.2
   simp [run, hb]
+
+/-! ### Across the transactions of a block -/
+
+/-- the end of a transaction keeps states well formed (objects marked deleted stay objects) -/
+theorem finalise_wf (s : St) (h : WF s) : WF (finalise s) := by
+  unfold finalise
+  by_cases hj : s.journal.isEmpty = true
+  · simp [hj]; exact h
+  · simp only [hj]
+    intro a ha
+    change (finaliseAcct s a).present = false at ha
+    change finaliseAcct s a = Acct.absent
+    unfold finaliseAcct at ha ⊢
+    by_cases hc : deletedNow s a = true
+    · have hp : (s.acct a).present = true := by
+        simp only [deletedNow, Bool.and_eq_true] at hc; exact hc.1.2
+      simp [hc, hp] at ha
+    · simp only [hc] at ha ⊢
+      exact h a (by simpa using ha)
+
+theorem runBlock_wf (vr : Variant) (hv : vr.suicideRestoresSize = true) :
+    ∀ (txs : List (List Prog)) (s : St), WF s → WF (runBlock vr s txs)
+  | [], s, h => by simpa [runBlock] using h
+  | tx :: txs, s, h => by
+    simp only [runBlock]
+    exact runBlock_wf vr hv txs _ (finalise_wf _ (runList_good vr tx s h (Or.inl hv)).2)
+
+/-- **C12 (every transaction of a block).** After any number of earlier transactions of the same block - including
+ones that self-destructed or emptied accounts, whose objects are then only *marked* deleted until the block is
+committed - a frame that reverts leaves the state equal to the state at its entry.  In particular an account deleted by
+an earlier transaction and re-created inside the reverted frame is deleted again afterwards, not resurrected with its
+old balance. -/
+theorem C12_reverted_frame_leaves_no_trace_in_any_transaction (vr : Variant) (hv : vr.suicideRestoresSize = true)
+    (s : St) (h : WF s) (earlier : List (List Prog)) (before body : List Prog) :
+    let s1 := runList vr (runBlock vr s earlier) before
+    run vr s1 (.frame body true) = s1 := by
+  intro s1
+  have hw : WF s1 := (runList_good vr before _ (runBlock_wf vr hv earlier s h) (Or.inl hv)).2
+  exact C12_reverted_frame_leaves_no_trace vr hv s1 hw body
+
+/-- the end of a transaction changes no account the transaction left clean -/
+theorem C12_finalise_keeps_clean_accounts (s : St) (a : Nat)
+    (hc : dirty s a = false) : (finalise s).acct a = s.acct a := by
+  unfold finalise
+  by_cases hj : s.journal.isEmpty = true
+  · simp [hj]
+  · simp [hj, finaliseAcct, deletedNow, hc]
+
+/-- non-vacuity, the history behind the statement above: account 1 (balance 5) self-destructs in the first
+transaction; the second re-creates it and pays it 7 inside a frame that reverts; it is still deleted afterwards. -/
+example :
+    let s0 : St := { acct := upd (fun _ => {}) 1 { present := true, bal := 5 } }
+    let s1 := runBlock { suicideRestoresSize := true } s0 [[.mut (.suicide 1)]]
+    (s1.acct 1).live = false ∧
+      ((runList { suicideRestoresSize := true } s1 [.mut (.createAccount 1), .mut (.addBalance 1 7)]).acct 1).live = true := by
+  simp [runBlock, runList, run, applyMut, suicide, finalise, finaliseAcct, deletedNow, dirty, createAccount, addBalance,
+    ensure, St.push, St.setAcct, upd, Acct.live, Entry.dirtied, Acct.empty]
 
 /-! ### Tie to the current source tree (T1: regenerated facts) -/
 
